@@ -156,6 +156,9 @@ class ResourcePool:
                 container.suspend_container()
                 self.suspending_containers.append(container)
                 self.active_containers.remove(container)
+            # consumed_ram_gb only covers active containers; drop the usage
+            # of the containers that just left the active list
+            self._reconcile_consumed_ram()
         
         results = []
         if len(assignments) > 0:
